@@ -41,7 +41,7 @@ fn explore(api: &Api, setting_ix: usize, seed: u64, cx: &mut Cx) {
     let (matched, again, bob_login, pw2_login, s2_login, slw, slf) = match w {
         Ok(w) => w,
         Err(e) => {
-            cx.violate_case(&format!("{}/error", e.step), format!("honest step {} failed: {:?}", e.step, e.e), json!({}));
+            cx.violate_case(&format!("honest-step/{}", e.step), format!("honest step {} failed: {:?}", e.step, e.e), json!({}));
             return;
         }
     };
